@@ -197,7 +197,7 @@ class Ctx:
                     self.stop = True
             if self.hangs:
                 # watchdog candidates: the module's replay function re-runs the case alone with a long limit, three times
-                for case in self.hangs[:2]:
+                for case in self.hangs[:1]:
                     try:
                         if replay_fn is not None:
                             replay_fn(dict(case, confirm_hang=True))
